@@ -98,29 +98,29 @@ def main(tier):
             if x["violated"] and rt_ids & set(x.get("roots") or []):
                 ob(False, "P1:obligation:" + aicheck.stable_key(x), dict(aicheck.site_report(x), rule="P1 no panic / overflow / self-check can fail along try_from_bytes -> into_bytes for any input"))
         ob(True, "P1:roundtrip-obligations", {})
-        # P2
-        def fields(v):
-            if isinstance(v, dict) and "enum" in v:
-                v = v["enum"].get("v0", [None])[0]
-            while isinstance(v, list) and len(v) == 1:
-                v = v[0]
-            return v if isinstance(v, list) else []
-        pkf, skf = fields(J["pk:from"]["result"]), fields(J["sk:from"]["result"])
-        got_pk = [f.get("tag") for f in pkf[:1]]
-        got_sk = [f.get("tag") for f in skf[:3]]
-        ob(got_pk == ["in.pk[0..32]"], "P2:pk-header-in", {"rule": "P2 rho of a deserialised public key is the exact copy of bytes 0..32", "set": s, "tags": got_pk})
-        ob(got_sk == ["in.sk[0..32]", "in.sk[32..64]", "in.sk[64..128]"], "P2:sk-header-in", {"rule": "P2 rho, K, tr of a deserialised private key are exact copies of bytes 0..32, 32..64, 64..128", "set": s, "tags": got_sk})
+        # P2 (by field name: the field read from a byte range is the field written back to it)
+        pkb = st.byte_fields(st.named_structs(J["pk:from"]).get("types::PublicKey"))
+        skb = st.byte_fields(st.named_structs(J["sk:from"]).get("types::PrivateKey"))
         seg_pk = J["pk:into"]["result"].get("segs") if isinstance(J["pk:into"]["result"], dict) else None
         seg_sk = J["sk:into"]["result"].get("segs") if isinstance(J["sk:into"]["result"], dict) else None
-        names_pk = [f for f in (seg_pk or [])]
-        ob(bool(seg_pk) and len(seg_pk) == 1 and seg_pk[0][:2] == [0, 32] and seg_pk[0][2].startswith("pk.") and J["pk:into"]["result"].get("arr_len") == P["pk_len"], "P2:pk-header-out",
-           {"rule": "P2 into_bytes writes the key's rho unmodified to bytes 0..32 of a PK_LEN-byte array", "set": s, "segments": seg_pk})
-        ok_sk = bool(seg_sk) and [x[:2] for x in seg_sk] == [[0, 32], [32, 64], [64, 128]] and len({x[2] for x in seg_sk}) == 3 and all(x[2].startswith("sk.") for x in seg_sk) \
-            and J["sk:into"]["result"].get("arr_len") == P["sk_len"]
-        ob(ok_sk, "P2:sk-header-out", {"rule": "P2 into_bytes writes rho, K, tr (three distinct fields) unmodified to bytes 0..32, 32..64, 64..128 of an SK_LEN-byte array", "set": s, "segments": seg_sk})
-        # the field written to a range is the field read from it: field order of the struct is the same in both directions
-        if seg_sk and len(seg_sk) == 3 and len(skf) >= 3:
-            pass
+
+        def consistent(segs, fields, prefix, inp, want_ranges):
+            if not segs or [x[:2] for x in segs] != want_ranges:
+                return False
+            for lo, hi, tag in segs:
+                if not tag.startswith(prefix + "."):
+                    return False
+                f = fields.get(tag[len(prefix) + 1:])
+                if f is None or f != (hi - lo, "in.%s[%d..%d]" % (inp, lo, hi)):
+                    return False
+            return len({x[2] for x in segs}) == len(segs)
+
+        ok_pk = consistent(seg_pk, pkb, "pk", "pk", [[0, 32]]) and J["pk:into"]["result"].get("arr_len") == P["pk_len"]
+        ob(ok_pk, "P2:pk-byte-fields", {"rule": "P2 the 32-byte field deserialised from bytes 0..32 is written back unmodified to bytes 0..32 of a PK_LEN-byte array", "set": s,
+                                         "after_deserialisation": pkb, "segments_written": seg_pk})
+        ok_sk = consistent(seg_sk, skb, "sk", "sk", [[0, 32], [32, 64], [64, 128]]) and J["sk:into"]["result"].get("arr_len") == P["sk_len"]
+        ob(ok_sk, "P2:sk-byte-fields", {"rule": "P2 the three byte fields deserialised from bytes 0..32, 32..64, 64..128 are written back unmodified to the same ranges of an SK_LEN-byte array", "set": s,
+                                         "after_deserialisation": skb, "segments_written": seg_sk})
         # P3
         for kind, fn, base, npoly in (("pk", "encodings::pk_encode", "simple_bit_unpack", k), ("sk", "encodings::sk_encode", "bit_unpack", l + 2 * k)):
             j = J["%s:roundtrip" % kind]
